@@ -36,7 +36,7 @@ def run(tier):
                "(output differs from the plain pass-through of the input)")
     ox.replay_groups(ck, groups, variants)
     # differential part: every non-multicasting catalogue operator with deterministic callbacks, second subscription vs first
-    df = diff_common.resub_pass(ck, ck.seed + 92, 5 if tier == "quick" else 50)
+    df = diff_common.resub_pass(ck, ck.seed + 92, 10 if tier == "quick" else 50)
     ck.note("differential_resubscription_pass", {k: v for k, v in df.items()})
     ck.nontrivial = sum(1 for g in groups if oc.nontrivial(*g))
     ck.note("scenarios", len(groups))
